@@ -56,6 +56,7 @@ type attemptRec struct {
 	ref         RefResult
 	initialID   string
 	cancelledAt int // delivered bytes when cancellation was seen by Read (-1: not)
+	endSeq      int // world sequence number when the next attempt started or Connect returned
 }
 
 type readRec struct {
@@ -124,13 +125,16 @@ type clientWorld struct {
 	cancelAttempt, cancelOffset int
 	cancelTime                  time.Duration
 
-	conn     *sse.Connection
-	attempts []*attemptRec
-	retries  []retryRec
-	events   []*evRec
-	cbs      []*cbRec
-	cbTasks  int
-	evSeq    int
+	conn       *sse.Connection
+	attempts   []*attemptRec
+	retries    []retryRec
+	events     []*evRec // as seen by the observer callback (when there is one)
+	refEvs     []*evRec // derived from the reference interpreter and the Read log: needs no observer
+	noObs      bool     // this run has no always-subscribed observer (so "nobody subscribed" states are reachable)
+	dispatched int      // events seen by any callback so far (pacing of subscriber tasks)
+	cbs        []*cbRec
+	cbTasks    int
+	evSeq      int
 
 	connectInvoked, connectReturned int
 	connectErr                      error
@@ -330,6 +334,9 @@ func (rt *clientRT) RoundTrip(req *http.Request) (*http.Response, error) {
 	w := rt.w
 	ch := w.ch
 	a := &attemptRec{n: len(w.attempts) + 1, start: w.sim.Elapsed(), startSeq: w.tick(), header: req.Header.Clone(), cancelledAt: -1}
+	if n := len(w.attempts); n > 0 && w.attempts[n-1].endSeq == 0 {
+		w.attempts[n-1].endSeq = a.startSeq
+	}
 	a.lastID = req.Header.Values("Last-Event-ID")
 	a.initialID = w.lastDispatchedID
 	w.attempts = append(w.attempts, a)
@@ -378,8 +385,14 @@ func (rt *clientRT) RoundTrip(req *http.Request) (*http.Response, error) {
 		w.o.fault("transport: rejected response (status / content type)")
 		a.ended = w.sim.Elapsed()
 		w.sim.Logf("RoundTrip", "#%d response %d %q", a.n, a.status, a.ctype)
+		var rejBody io.ReadCloser = io.NopCloser(strings.NewReader("nope"))
+		if ch.Chance(1, 2, "rejected response has a streaming body") {
+			// a body that does not end by itself: a rejected response must be given up at once, not read
+			rejBody = &hangingBody{w: w}
+			w.o.probe("rejected response with a body that never ends")
+		}
 		return &http.Response{StatusCode: a.status, Status: strconv.Itoa(a.status), Proto: "HTTP/1.1", ProtoMajor: 1, ProtoMinor: 1,
-			Header: http.Header{"Content-Type": []string{a.ctype}}, Body: io.NopCloser(strings.NewReader("nope")), Request: req}, nil
+			Header: http.Header{"Content-Type": []string{a.ctype}}, Body: rejBody, Request: req}, nil
 	}
 	// stream
 	a.status = 200
@@ -431,6 +444,25 @@ func (rt *clientRT) RoundTrip(req *http.Request) (*http.Response, error) {
 }
 
 func (b *clientBody) Close() error { b.closed = true; return nil }
+
+// hangingBody delivers a few bytes and then blocks until the request is cancelled.
+type hangingBody struct {
+	w    *clientWorld
+	sent bool
+}
+
+func (h *hangingBody) Close() error { return nil }
+
+func (h *hangingBody) Read(p []byte) (int, error) {
+	h.w.sim.YieldHere("rejected body.Read")
+	if !h.sent && len(p) > 0 {
+		h.sent = true
+		p[0] = '.'
+		return 1, nil
+	}
+	h.w.sim.WaitFor("rejected body never ends", func() bool { return h.w.ctx.Err() != nil })
+	return 0, h.w.ctx.Err()
+}
 
 func (b *clientBody) Read(p []byte) (n int, err error) {
 	w, a := b.w, b.a
@@ -618,7 +650,7 @@ func runClientWorld(rc *RunCtx) *Outcome {
 		h.int(a.endKind)
 	}
 	o.Key = uint64(h)
-	o.Nontrivial = len(w.attempts) >= 2 || len(w.events) >= 1
+	o.Nontrivial = len(w.attempts) >= 2 || len(w.events) >= 1 || len(w.refEvs) >= 1
 	var atts []string
 	for _, a := range w.attempts {
 		atts = append(atts, fmt.Sprintf("#%d kind=%d stream=%q end=%d lastID=%q", a.n, a.kind, a.stream, a.endKind, a.lastID))
@@ -710,6 +742,9 @@ func (w *clientWorld) build() {
 		sim.Log("Connect", "invoke")
 		err := w.conn.Connect()
 		w.connectReturned = w.tick()
+		if n := len(w.attempts); n > 0 && w.attempts[n-1].endSeq == 0 {
+			w.attempts[n-1].endSeq = w.connectReturned
+		}
 		w.connectErr = err
 		w.connectRetAt = sim.Elapsed()
 		for _, e := range w.events {
@@ -739,6 +774,7 @@ func (w *clientWorld) onEvent(cb *cbRec) sse.EventCallback {
 	return func(e sse.Event) {
 		cb.seenEv = append(cb.seenEv, RefEvent{ID: e.LastEventID, Type: e.Type, Data: e.Data})
 		cb.seenSeq = append(cb.seenSeq, w.tick())
+		w.dispatched++
 		w.sim.Logf("callback", "cb%d(%s) got {id=%q type=%q data=%q}", cb.id, cb.typ, e.LastEventID, e.Type, e.Data)
 		if w.rc.Prop == "C13" {
 			w.sim.YieldHere("callback")
@@ -808,8 +844,22 @@ func (w *clientWorld) newCB(typ string, all bool) *cbRec {
 
 func (w *clientWorld) setupCallbacks() {
 	ch := w.ch
-	// observer: records every dispatched event; registered first, never removed
+	// observer: records every dispatched event; registered first, never removed. Some runs do
+	// without it, so that states in which nobody is subscribed are reachable; the C13 oracle
+	// takes its events from the reference interpreter and the Read log instead.
 	obs := w.newCB("*", true)
+	w.noObs = w.rc.Prop == "C13" && ch.Chance(1, 3, "no observer")
+	if w.noObs {
+		obs.all, obs.typ = false, "(no observer)"
+		w.o.probe("run without an always-subscribed observer")
+	}
+	if !w.noObs {
+		w.registerObserver(obs)
+	}
+	w.afterObserver(ch)
+}
+
+func (w *clientWorld) registerObserver(obs *cbRec) {
 	obs.subInvoked = w.tick()
 	obs.remover = w.conn.SubscribeToAll(func(e sse.Event) {
 		a := w.attempts[len(w.attempts)-1]
@@ -822,9 +872,13 @@ func (w *clientWorld) setupCallbacks() {
 		w.lastDispatchedID = e.LastEventID
 		obs.seenEv = append(obs.seenEv, rec.ev)
 		obs.seenSeq = append(obs.seenSeq, w.tick())
+		w.dispatched++
 		w.sim.Logf("event", "%d attempt #%d {id=%q type=%q data=%q}", rec.idx, a.n, e.LastEventID, e.Type, e.Data)
 	})
 	obs.subReturned = w.tick()
+}
+
+func (w *clientWorld) afterObserver(ch *Chooser) {
 	if w.rc.Prop != "C13" && !ch.Chance(1, 4, "callbacks in this run") {
 		return
 	}
@@ -851,13 +905,13 @@ func (w *clientWorld) setupCallbacks() {
 		w.sim.Spawn(fmt.Sprintf("subscriber%d", t), func() {
 			var mine []*cbRec
 			if hot != nil && ch.Chance(2, 3, "this task removes the hot callback") {
-				w.sim.WaitWeak("waits to remove the hot callback", func() bool { return len(w.events) >= hotAt || w.connectReturned != 0 })
+				w.sim.WaitWeak("waits to remove the hot callback", func() bool { return w.dispatched >= hotAt || w.connectReturned != 0 })
 				w.removeConcurrent(hot)
 				w.o.probe("hot callback removed by a subscriber task")
 			}
 			for i := 0; i < 5 && ch.Chance(3, 4, "more subscription ops"); i++ {
 				k := ch.Range(0, 12, "wait for events")
-				w.sim.WaitWeak("subscriber waits", func() bool { return len(w.events) >= k || w.connectReturned != 0 })
+				w.sim.WaitWeak("subscriber waits", func() bool { return w.dispatched >= k || w.connectReturned != 0 })
 				switch ch.Weighted([]int{4, 3, 1, 1}, "subscription op") {
 				case 0:
 					ty := types[ch.Intn(len(types), "callback type")]
@@ -947,12 +1001,50 @@ func (w *clientWorld) evaluate(res verifhook.Result, bubblePanic string) {
 	for _, r := range w.sim.Races() {
 		o.violate("C13", "data-race", "lockset violation: %s", r.String())
 	}
+	w.deriveEvents()
 	w.checkEvents()
 	w.checkC10()
 	w.checkC11()
 	w.checkC12()
 	w.checkC13()
 	w.clientProbes()
+}
+
+// deriveEvents builds the list of dispatched events with conservative dispatch
+// brackets from the reference interpreter and the Read log alone: an event
+// whose block ends at offset E is dispatched no earlier than the return of the
+// Read that delivered byte E-2 (a CRLF blank line can be recognised at its CR)
+// and no later than the call of the Read after the one that delivered byte E
+// (or, for an event flushed by a clean end of stream, the end of the attempt).
+func (w *clientWorld) deriveEvents() {
+	w.refEvs = nil
+	for _, a := range w.attempts {
+		evs := a.expectedEvents()
+		for i, ev := range evs {
+			end := len(a.stream)
+			atEOF := true
+			if i < len(a.ref.End) && !(a.ref.FlushedAtEOF && i == len(a.ref.Events)-1) {
+				end, atEOF = a.ref.End[i], false
+			}
+			rec := &evRec{idx: len(w.refEvs), ev: ev, attempt: a.n, closeSeq: a.endSeq}
+			i0, i1 := -1, -1
+			for k, r := range a.reads {
+				if i0 < 0 && r.off >= end-2 {
+					i0 = k
+				}
+				if i1 < 0 && r.off >= end && (!atEOF || r.err != nil) {
+					i1 = k
+				}
+			}
+			if i0 >= 0 {
+				rec.openSeq = a.reads[i0].retSeq
+			}
+			if i1 >= 0 && i1+1 < len(a.reads) {
+				rec.closeSeq = a.reads[i1+1].callSeq
+			}
+			w.refEvs = append(w.refEvs, rec)
+		}
+	}
 }
 
 // expectedEvents of attempt a (reference view).
@@ -970,6 +1062,9 @@ func (a *attemptRec) expectedEvents() []RefEvent {
 
 // checkEvents: the dispatched events are exactly the reference's (C01 on the Connection entry, with carried-over IDs).
 func (w *clientWorld) checkEvents() {
+	if w.noObs {
+		return
+	}
 	var want []RefEvent
 	for _, a := range w.attempts {
 		want = append(want, a.expectedEvents()...)
@@ -1320,7 +1415,7 @@ func (w *clientWorld) checkC13() {
 	o := w.o
 	// callbacks are matched to events by value; that needs pairwise distinct events
 	index := map[RefEvent]int{}
-	for _, e := range w.events {
+	for _, e := range w.refEvs {
 		if _, dup := index[e.ev]; dup {
 			o.probe("C13 skipped: two identical events in one run")
 			return
@@ -1349,10 +1444,10 @@ func (w *clientWorld) checkC13() {
 			if i > 0 && idx < cb.seen[i-1] {
 				o.violate("C13", "order", "cb%d(%s) received event %d after event %d", cb.id, cb.typ, idx, cb.seen[i-1])
 			}
-			if idx < 0 || idx >= len(w.events) {
+			if idx < 0 || idx >= len(w.refEvs) {
 				continue
 			}
-			ev := w.events[idx]
+			ev := w.refEvs[idx]
 			if !cb.all && ev.ev.Type != cb.typ {
 				o.violate("C13", "wrong-type", "cb%d subscribed to %q received event %d of type %q", cb.id, cb.typ, idx, ev.ev.Type)
 			}
@@ -1363,16 +1458,16 @@ func (w *clientWorld) checkC13() {
 		if cb.id == 0 {
 			continue
 		}
-		for _, ev := range w.events {
+		for _, ev := range w.refEvs {
 			match := cb.all || ev.ev.Type == cb.typ
 			if !match {
 				continue
 			}
-			must := cb.subReturned != 0 && cb.subReturned < ev.openSeq && (cb.remInvoked == 0 || cb.remInvoked > ev.closeSeq) && ev.closeSeq != 0
+			must := cb.subReturned != 0 && ev.openSeq != 0 && cb.subReturned < ev.openSeq && (cb.remInvoked == 0 || cb.remInvoked > ev.closeSeq) && ev.closeSeq != 0
 			if must && !seen[ev.idx] {
 				o.violate("C13", "missed", "cb%d(%s), subscribed before event %d {type=%q data=%q} was received and not removed until after it, never got it", cb.id, cb.typ, ev.idx, ev.ev.Type, ev.ev.Data)
 			}
-			mustNot := (cb.remReturned != 0 && cb.remReturned < ev.openSeq) || cb.subInvoked == 0 || (ev.closeSeq != 0 && cb.subInvoked > ev.closeSeq)
+			mustNot := (cb.remReturned != 0 && ev.openSeq != 0 && cb.remReturned < ev.openSeq) || cb.subInvoked == 0 || (ev.closeSeq != 0 && cb.subInvoked > ev.closeSeq)
 			if mustNot && seen[ev.idx] {
 				o.violate("C13", "spurious", "cb%d(%s) got event %d although it was not subscribed when the event was dispatched", cb.id, cb.typ, ev.idx)
 			}
@@ -1414,7 +1509,7 @@ func (w *clientWorld) clientProbes() {
 			o.probe("reconnect carrying Last-Event-ID")
 		}
 	}
-	if len(w.cbs) > 1 && len(w.events) > 0 {
+	if len(w.cbs) > 1 && len(w.refEvs) > 0 {
 		o.probe("callbacks and events in one run")
 	}
 	for _, cb := range w.cbs[1:] {
